@@ -78,7 +78,7 @@ def cfgs(prop, tier):
             mc=[dict(common, MaxInstr="2", MaxNodes="3", MaxDepth="1", MaxTop="1")] if q else [dict(common, MaxInstr="3", MaxNodes="3", MaxDepth="1", MaxTop="1")],
             scn=[dict(common, MaxInstr="2", MaxNodes="3")] if q else
                 [dict(common, MaxInstr="2", MaxNodes="3"), dict(common, MaxInstr="3", MaxNodes="3", MaxTop="1", FailKinds='{"err"}', MaxFailPos="2", _forks="London")],
-            forks=["London"] if q else ["Byzantium", "London", "Cancun"])
+            forks=["London"] if q else ["Istanbul", "London", "Cancun"])   # CREATE2 exists from Constantinople on
     if prop == "C08":
         common = {"Ops": '{"CALL", "CREATE", "CREATE2", "STOP", "RETURN", "REVERT", "INVALID"}',
                   "CallKinds": '{"CALL", "DELEGATECALL"}', "Targets": '{"a", "b", "n", "p"}', "Values": "{0, 2}",
@@ -88,7 +88,7 @@ def cfgs(prop, tier):
             mc=[],
             scn=[dict(common, MaxInstr="2", MaxNodes="3")] if q else
                 [dict(common, MaxInstr="2", MaxNodes="3"), dict(common, MaxInstr="3", MaxNodes="3", ArgLens="{1}", MaxFailPos="0", Targets='{"a", "b", "n"}', _forks="London")],
-            forks=["London"] if q else ["Byzantium", "London", "Cancun"])
+            forks=["London"] if q else ["Istanbul", "London", "Cancun"])   # CREATE2 exists from Constantinople on
     if prop == "C10":
         common = {"Ops": '{"SSTORE", "REGKEY", "JV", "CALL", "CREATE", "STOP", "REVERT"}', "CallKinds": ALLK,
                   "Targets": '{"a", "b"}', "Values": "{0, 2}", "Slots": "{0, 1}", "SVals": "{1, 2}",
@@ -101,7 +101,7 @@ def cfgs(prop, tier):
                 [dict(common, MaxInstr="4", MaxNodes="2", Slots="{0}"), dict(common, MaxInstr="3", MaxNodes="3"),
                  dict(common, MaxInstr="4", MaxNodes="3", Slots="{0}", SVals="{1}", Values="{0}", _forks="London"),
                  dict(common, MaxInstr="5", MaxNodes="3", Slots="{0}", Ops='{"REGKEY", "JV", "CALL", "STOP"}', CallKinds='{"CALL", "DELEGATECALL"}', SVals="{1}", _forks="London")],
-            forks=["London"] if q else ["Frontier", "London", "Cancun"])
+            forks=["London"] if q else ["Byzantium", "London", "Cancun"])   # REVERT and STATICCALL exist from Byzantium on
     if prop == "C13":
         common = {"Ops": '{"CALL", "CREATE", "CREATE2", "SELFDESTRUCT", "STOP", "REVERT", "INVALID"}',
                   "CallKinds": ALLK, "Targets": '{"a", "b", "n", "p"}',
@@ -111,7 +111,7 @@ def cfgs(prop, tier):
             mc=[],
             scn=[dict(common, MaxInstr="2", MaxNodes="3")] if q else
                 [dict(common, MaxInstr="2", MaxNodes="3"), dict(common, MaxInstr="3", MaxNodes="3", MaxTop="1", MaxFailPos="0", Targets='{"a", "b", "n"}', _forks="London")],
-            forks=["London"] if q else ["Byzantium", "London", "Cancun"])
+            forks=["London"] if q else ["Istanbul", "London", "Cancun"])   # CREATE2 exists from Constantinople on
     raise InfraError("no frame config for " + prop)
 
 
@@ -145,6 +145,8 @@ def replay(v, prop, overrides, forks, timeout, every=1, simulate=0):
         r = json.load(open(rep))
     finally:
         shutil.rmtree(os.path.dirname(rep), ignore_errors=True)
+    if "config.fork" in (r.get("byComp") or {}):
+        raise InfraError("replay configuration error: %s" % ((r.get("samples") or {}).get("config.fork") or [{}])[0].get("detail"))
     if r.get("parseErrors"):
         raise InfraError("replayer could not parse %d scenarios" % r["parseErrors"])
     v.add_tlc(stats)
